@@ -71,6 +71,15 @@ CLAIMED = {
              "Pearson coefficient is not decided.",
         technique="abstract interpretation over ast (homogeneity / bilinear normal forms; symbolic array shapes and origins), sibling-slot agreement",
         ref="5 C07"),
+    "C08": dict(
+        text="The per-axis frequency grid recipe (offset subtracted from arange, shift applied) of the three grid builders is extracted and "
+             "evaluated symbolically for both parity classes n=2k and n=2k+1: it must be FFT-ordered in both. A coordinate-frame type system with "
+             "a box-shape scale tag evaluates the four mask builders: the plane normal dotted with the integer grid must be rotated W->M first and "
+             "then divided by the shape. Structural rules cover the non-strict predicate (keeps DC, even), no-wedge/union/axis tables, and a "
+             "flow-sensitive reaching-definitions analysis proves every accepted tilt spelling reaches the stored tilt model with no dead definition. "
+             "Holds for every shape, orientation and tilt range; floating-point ties on a plane are not decided.",
+        technique="parity-split symbolic evaluation of grid recipes, frame/scale typing by abstract interpretation, reaching definitions on the CFG",
+        ref="5 C08"),
 }
 
 NOT_APPLICABLE = {
